@@ -56,6 +56,8 @@ SECOND = [("collections", "OrderedDict"), ("verif_sink", "other"), ("builtins", 
 REGRESSION = [      # inputs of test/test_crashes.py (issues 22, numpy poly1d, POP of a MARK)
     b"\x80\x04\x95\x82\x00\x00\x00\x00\x00\x00\x00(\x8c\x05numpy\x8c\x06poly1d\x93\x94\x8c\x05numpy\x8c\x04size\x93\x94\x8c\x05numpy\x8c\x0c__builtins__\x93\x94h\x00N\x85R\x94h\x03\x94h\x02\x94\x8c\x04eval\x8c\x04eval\x86\x94\x8c\x05numpy\x8c\x06poly1d\x93\x94.",
     b"(c__builtin__\nexec\nS'print(1)'\no0N.", b"(I1\n(I2\n0I3\nt.", b"\x80\x02(K\x010K\x02.",
+    # in-band bytearrays of protocol 5 (BYTEARRAY8: refused as coded; if it is ever accepted the value is a bytearray)
+    pickle.dumps(bytearray(b"ab"), 5), pickle.dumps([bytearray(b"x"), b"x"], 5), pickle.dumps({"k": bytearray()}, 5),
 ]
 SHADOWMODS = ["collections", "importlib", "gzip", "datetime", "functools", "string"]
 
